@@ -47,7 +47,7 @@ def floors(tier):
     f = {"groups": 300, "schedules": 5000, "schedules_exhaustive_groups": 100, "thread_runs": 100,
          "thread_validations": 5000, "thread_runs_20plus_switches": 50, "observed_switches": 2000,
          "distinct_interleaving_signatures": 50}
-    for k in ("refs", "remote", "regex", "format", "types", "same-schema-object", "verdicts", "dollar-schema"):
+    for k in ("refs", "remote", "regex", "format", "types", "same-schema-object", "verdicts", "dollar-schema", "decimal"):
         f["collision:" + k] = 60
     return f
 
@@ -111,6 +111,13 @@ def make_member(rng, d, k, kinds):
             handlers = dict(handlers, vf=(lambda url, hdoc2=hdoc2: hdoc2))
             props["ds1"] = {"$ref": U_}
             props["ds2"] = {"$ref": U_ + "#/properties/v"}
+    if "decimal" in kinds:
+        # numbers handed over as decimal.Decimal (json.load(parse_float=Decimal)): arithmetic on them reads the
+        # thread's decimal context, which is shared by everything running in the thread
+        from decimal import Decimal
+        mo = "divisibleBy" if d == 3 else "multipleOf"
+        props["n1"] = {mo: rng.choice([3, 7, Decimal("0.01"), Decimal("0.3")]), "maximum": rng.choice([5, Decimal("2.5")])}
+        props["n2"] = {"items": {mo: rng.choice([2, Decimal("0.25"), Decimal("1e-10")])}, "minimum": Decimal("-1e4")}
     if "verdicts" in kinds:
         # content-equal subschemas in every member, instances that are equal in Python but different JSON values
         props["v1"] = {"type": "boolean"}
@@ -133,6 +140,13 @@ def make_member(rng, d, k, kinds):
     for n in names:
         v = rng.choice([1, "s", "x", "y", "ab", "ba", [1, "x"], ["y", 2], None, 20, {"x": [1, "q"]}, {"v": 1}, {"ab": 1, "xb": "s"}])
         inst[n] = v
+    if "decimal" in kinds:
+        from decimal import Decimal
+        # (moderate magnitudes: a quotient of more digits than the context's precision raises InvalidOperation on the
+        #  unchanged tree as well - Decimal instances are outside the numeric property's stated input space)
+        nums = [Decimal("12.5"), Decimal("0.35"), Decimal("7"), Decimal("100.25"), 21, 7, Decimal("-3.3"), 100, Decimal("0.75")]
+        inst["n1"] = rng.choice(nums)
+        inst["n2"] = [rng.choice(nums) for _ in range(3)]
     if "verdicts" in kinds:
         inst["v1"] = [True, 1, 1.0, False, 0][k % 5] if rng.random() < 0.8 else rng.choice([True, 1])
         inst["v2"] = [1, True, 1.0, "x"][(k + 1) % 4]
@@ -160,7 +174,7 @@ def make_member(rng, d, k, kinds):
 
 def group_plan(gseed):
     rng = random.Random(gseed)
-    kinds = set(rng.sample(["refs", "remote", "regex", "format", "types", "verdicts", "dollar-schema"], rng.randrange(1, 4)))
+    kinds = set(rng.sample(["refs", "remote", "regex", "format", "types", "verdicts", "dollar-schema", "decimal"], rng.randrange(1, 4)))
     n = rng.choice([2, 2, 3])
     if rng.random() < 0.3:
         # several validators built from the very same schema OBJECT (no resolver passed): each still gets its own resolver
@@ -268,11 +282,17 @@ def all_schedules(lens, limit):
     return out
 
 
+class AmbientStateChanged(Exception):
+    pass
+
+
 def run_schedule(members, schedule):
+    from vf.obs import ambient
     vs = [m["build"]() for m in members]
     its = [v.iter_errors(m["instance"]) for v, m in zip(vs, members)]
     got = [[] for _ in members]
     done = [False] * len(members)
+    amb0 = ambient.snapshot()
     for i in schedule:
         if done[i]:
             continue
@@ -281,6 +301,11 @@ def run_schedule(members, schedule):
             got[i].append(fp(e))
         except StopIteration:
             done[i] = True
+        # a suspended iterator holds no ambient interpreter state (decimal context, recursion limit, ...): whatever
+        # runs next in this thread - another validator, the caller - would inherit it
+        amb = ambient.snapshot()
+        if amb != amb0:
+            raise AmbientStateChanged("after a next() on member %d: %r" % (i, ambient.diff(amb0, amb)))
     # drain what is left, round robin
     while not all(done):
         for i in range(len(members)):
